@@ -12,9 +12,10 @@ def AfeEntry.isMarker : AfeEntry → Bool
   | .marker => true
   | .el _ => false
 
-def AfeEntry.hasId (id : Nat) : AfeEntry → Bool
+/-- the entry for element `x` (this node) -/
+def AfeEntry.hasId (x : El) : AfeEntry → Bool
   | .marker => false
-  | .el e => e.id == id
+  | .el e => e == x
 
 /-- "insert a marker at the end of the list of active formatting elements" -/
 def Tree.pushMarker (s : Tree) : Tree := { s with afe := .marker :: s.afe }
@@ -27,10 +28,10 @@ def clearToMarker : List AfeEntry → List AfeEntry
 
 def Tree.clearAfeToMarker (s : Tree) : Tree := { s with afe := clearToMarker s.afe }
 
-def Tree.inAfe (s : Tree) (id : Nat) : Bool := s.afe.any (AfeEntry.hasId id)
+def Tree.inAfe (s : Tree) (x : El) : Bool := s.afe.any (AfeEntry.hasId x)
 
-def Tree.removeFromAfe (s : Tree) (id : Nat) : Tree :=
-  { s with afe := s.afe.filter (fun e => !AfeEntry.hasId id e) }
+def Tree.removeFromAfe (s : Tree) (x : El) : Tree :=
+  { s with afe := s.afe.filter (fun e => !AfeEntry.hasId x e) }
 
 /-- the entries after the last marker (most recent first) -/
 def afterLastMarker : List AfeEntry → List El
@@ -44,7 +45,7 @@ def noahRemove (e : El) (afe : List AfeEntry) : List AfeEntry :=
   let same := (afterLastMarker afe).filter (fun x => x.name == e.name && x.ns == e.ns && x.attrs == e.attrs)
   if same.length ≥ 3 then
     match same.getLast? with
-    | some old => afe.filter (fun x => !AfeEntry.hasId old.id x)
+    | some old => afe.filter (fun x => !AfeEntry.hasId old x)
     | none => afe
   else afe
 
@@ -60,7 +61,7 @@ def Tree.insertFormatting (s : Tree) (n : Name) (a : Attrs) : Tree := (s.insertH
 /-- entry that needs no reconstruction: a marker or an element that is on the stack -/
 def Tree.markerOrOpen (s : Tree) : AfeEntry → Bool
   | .marker => true
-  | .el e => s.onStack e.id
+  | .el e => s.onStack e
 
 /-- steps 8–10 ("create") for the entries to re-open, earliest first; returns the new entries
 (most recent first) -/
@@ -108,11 +109,11 @@ def Tree.anyOtherEndTag (c : Cfg) (s : Tree) (n : Name) : Tree :=
 
 /-- split the stack (current node first) at the element with identity `id`:
 `(above, below)` with the element itself dropped -/
-def splitAtId (id : Nat) : List El → Option (List El × List El)
+def splitAtId (x : El) : List El → Option (List El × List El)
   | [] => none
   | e :: es =>
-    if e.id == id then some ([], es)
-    else (splitAtId id es).map (fun r => (e :: r.1, r.2))
+    if e == x then some ([], es)
+    else (splitAtId x es).map (fun r => (e :: r.1, r.2))
 
 /-- the furthest block: among the elements above the formatting element (`above`, current node first)
 the special one nearest to the formatting element; returns (elements above it, it, elements between it
@@ -130,12 +131,7 @@ structure InnerRes where
   /-- what remains between furthest block and formatting element, nearest the furthest block first -/
   between : List El
   /-- identity of the element the bookmark follows, if it was moved (step 4.13.8) -/
-  bookmark : Option Nat
-
-/-- the element entry of the list with identity `id` (the entry remembers "the token for which the
-element was created": name and attributes) -/
-def Tree.findAfe (s : Tree) (id : Nat) : Option El :=
-  s.afe.findSome? (fun | .el x => if x.id == id then some x else none | .marker => none)
+  bookmark : Option El
 
 /-- inner loop, over the nodes between furthest block and formatting element, nearest the furthest
 block first; `k` = inner loop counter after the increment of step 4.13.1; `lastIsFb` = "last node is
@@ -143,40 +139,39 @@ the furthest block" -/
 def aaaInner (s : Tree) : Nat → Bool → List El → InnerRes
   | _, _, [] => ⟨s, [], none⟩
   | k, lastIsFb, node :: rest =>
-    match (if k > 3 then none else s.findAfe node.id) with
-    | none =>
+    if k > 3 || !s.inAfe node then
       -- 4.13.4 / 4.13.5: remove node from the list (if there) and from the stack
-      aaaInner (s.removeFromAfe node.id) (k + 1) lastIsFb rest
-    | some x =>
+      aaaInner (s.removeFromAfe node) (k + 1) lastIsFb rest
+    else
       -- 4.13.6: create an element for the token for which node was created; replace node by it, in
       -- the list and in the stack
-      let ne : El := ⟨s.nextId, .html, x.name, x.attrs⟩
+      let ne : El := ⟨s.nextId, .html, node.name, node.attrs⟩
       let s1 : Tree :=
         { s with nextId := s.nextId + 1,
-                 afe := s.afe.map (fun y => if AfeEntry.hasId node.id y then .el ne else y) }
+                 afe := s.afe.map (fun y => if AfeEntry.hasId node y then .el ne else y) }
       let r := aaaInner s1 (k + 1) false rest
-      ⟨r.st, ne :: r.between, if lastIsFb then some ne.id else r.bookmark⟩
+      ⟨r.st, ne :: r.between, if lastIsFb then some ne else r.bookmark⟩
 
 /-- insert `x` immediately after (later than) the entry with identity `id`; the list is most recent
 first, so that is just before it -/
-def insertAfterId (x : AfeEntry) (id : Nat) : List AfeEntry → List AfeEntry
+def insertAfterId (x : AfeEntry) (b : El) : List AfeEntry → List AfeEntry
   | [] => [x]
-  | e :: es => if AfeEntry.hasId id e then x :: e :: es else e :: insertAfterId x id es
+  | e :: es => if AfeEntry.hasId b e then x :: e :: es else e :: insertAfterId x b es
 
 /-- one iteration of the outer loop; `none` = "return" -/
 def aaaIter (c : Cfg) (s : Tree) (subject : Name) : Tree × Bool :=
   match findFormatting subject s.afe with
   | none => (s.anyOtherEndTag c subject, false)                     -- 4.3
   | some fe =>
-    if !s.onStack fe.id then (s.removeFromAfe fe.id, false)         -- 4.4
-    else if !s.inScopeId c fe.id then (s, false)                    -- 4.5
+    if !s.onStack fe then (s.removeFromAfe fe, false)         -- 4.4
+    else if !s.inScopeId c fe then (s, false)                    -- 4.5
     else
-      match splitAtId fe.id s.stack with
+      match splitAtId fe s.stack with
       | none => (s, false)
       | some (above, below) =>
         match splitFurthest c.dev above with
         | none =>                                                    -- 4.8
-          (({ s with stack := below }).removeFromAfe fe.id, false)
+          (({ s with stack := below }).removeFromAfe fe, false)
         | some (top, fb, between) =>
           let r := aaaInner s 1 true between                          -- 4.13
           -- 4.15 create an element for the formatting element's token
@@ -185,8 +180,8 @@ def aaaIter (c : Cfg) (s : Tree) (subject : Name) : Tree × Bool :=
           -- 4.18 remove the formatting element from the list, insert the new one at the bookmark
           let afe' :=
             match r.bookmark with
-            | none => s2.afe.map (fun x => if AfeEntry.hasId fe.id x then .el nf else x)
-            | some b => (insertAfterId (.el nf) b s2.afe).filter (fun x => !AfeEntry.hasId fe.id x)
+            | none => s2.afe.map (fun x => if AfeEntry.hasId fe x then .el nf else x)
+            | some b => (insertAfterId (.el nf) b s2.afe).filter (fun x => !AfeEntry.hasId fe x)
           -- 4.19 remove it from the stack, insert the new element immediately below the furthest block
           ({ s2 with afe := afe', stack := top ++ nf :: fb :: (r.between ++ below) }, true)
 
@@ -202,7 +197,7 @@ def Tree.adoptionAgency (c : Cfg) (s : Tree) (subject : Name) : Tree :=
   match s.stack with
   | cur :: _ =>
     -- step 2
-    if cur.isHtml subject && !s.inAfe cur.id then s.pop
+    if cur.isHtml subject && !s.inAfe cur then s.pop
     else aaaLoop c subject 8 s
   | [] => aaaLoop c subject 8 s
 
@@ -214,12 +209,12 @@ flags and the pointers are untouched *by construction*. -/
 abbrev State.current (s : State) : Option El := s.tree.current
 abbrev State.currentIs (s : State) (n : Name) : Bool := s.tree.currentIs n
 abbrev State.currentIsIn (s : State) (l : List Name) : Bool := s.tree.currentIsIn l
-abbrev State.onStack (s : State) (id : Nat) : Bool := s.tree.onStack id
+abbrev State.onStack (s : State) (x : El) : Bool := s.tree.onStack x
 abbrev State.hasOnStack (s : State) (n : Name) : Bool := s.tree.hasOnStack n
-abbrev State.inAfe (s : State) (id : Nat) : Bool := s.tree.inAfe id
+abbrev State.inAfe (s : State) (x : El) : Bool := s.tree.inAfe x
 abbrev State.inScope (c : Cfg) (s : State) (n : Name) : Bool := s.tree.inScope c n
 abbrev State.inScopeIn (c : Cfg) (s : State) (l : List Name) : Bool := s.tree.inScopeIn c l
-abbrev State.inScopeId (c : Cfg) (s : State) (id : Nat) : Bool := s.tree.inScopeId c id
+abbrev State.inScopeId (c : Cfg) (s : State) (x : El) : Bool := s.tree.inScopeId c x
 abbrev State.inListItemScope (c : Cfg) (s : State) (n : Name) : Bool := s.tree.inListItemScope c n
 abbrev State.inButtonScope (c : Cfg) (s : State) (n : Name) : Bool := s.tree.inButtonScope c n
 abbrev State.inTableScope (s : State) (n : Name) : Bool := s.tree.inTableScope n
@@ -230,7 +225,7 @@ abbrev State.pushNew (s : State) (ns : Ns) (n : Name) (a : Attrs) : State := s.o
 abbrev State.insertHtml (s : State) (n : Name) (a : Attrs := {}) : State := s.onTree (·.insertHtml n a)
 abbrev State.pop (s : State) : State := s.onTree (·.pop)
 abbrev State.insertAndPop (s : State) (n : Name) (a : Attrs := {}) : State := s.onTree (·.insertAndPop n a)
-abbrev State.removeFromStack (s : State) (id : Nat) : State := s.onTree (·.removeFromStack id)
+abbrev State.removeFromStack (s : State) (x : El) : State := s.onTree (·.removeFromStack x)
 abbrev State.popUntilNamed (s : State) (n : Name) : State := s.onTree (·.popUntilNamed n)
 abbrev State.popUntilIn (s : State) (l : List Name) : State := s.onTree (·.popUntilIn l)
 abbrev State.clearToTableContext (s : State) : State := s.onTree (·.clearToTableContext)
@@ -242,7 +237,7 @@ abbrev State.closeP (s : State) : State := s.onTree (·.closeP)
 abbrev State.closePInButtonScope (c : Cfg) (s : State) : State := s.onTree (·.closePInButtonScope c)
 abbrev State.pushMarker (s : State) : State := s.onTree (·.pushMarker)
 abbrev State.clearAfeToMarker (s : State) : State := s.onTree (·.clearAfeToMarker)
-abbrev State.removeFromAfe (s : State) (id : Nat) : State := s.onTree (·.removeFromAfe id)
+abbrev State.removeFromAfe (s : State) (x : El) : State := s.onTree (·.removeFromAfe x)
 abbrev State.insertFormatting (s : State) (n : Name) (a : Attrs) : State := s.onTree (·.insertFormatting n a)
 abbrev State.reconstructAfe (s : State) : State := s.onTree (·.reconstructAfe)
 abbrev State.anyOtherEndTag (c : Cfg) (s : State) (n : Name) : State := s.onTree (·.anyOtherEndTag c n)
